@@ -40,6 +40,8 @@ theorem legal_ok {T : Nat} {s : St} {o : Op} (hi : Inv T s) (hl : legal s o = tr
       · rfl
   | pause => rfl
   | resume => rfl
+  | cpause k => rfl
+  | cresume k => rfl
   | start =>
     simp only [legal, beq_iff_eq] at hl
     simp [step, mgrInput, hl, Manager.table, mgrOutputs, mgrOutput]
